@@ -748,6 +748,7 @@ func facts() map[string]any {
 	for k, v := range shapeFacts(filepath.Join(repoDir(), "middleware/resolver/resolver.go")) {
 		out[k] = v
 	}
+	out["shape_flight_key_has_fingerprint"] = flightKeyShape(filepath.Join(repoDir(), "middleware/resolver/resolver.go"))
 	out["shape_chase_inherits_lineage"] = chaseShape(filepath.Join(repoDir(), "middleware/cache/cache.go"))
 	return out
 }
@@ -1222,6 +1223,34 @@ func chaseShape(path string) bool {
 		return true
 	})
 	return withLineage && ok && consuming >= 2
+}
+
+// flightKeyShape: the singleflight key of Resolver.groupLookup names the authority SET the
+// lookup goes to (servers.Fingerprint()) next to question, zone and CD, so a lookup in
+// flight at a zone's old servers is never shared with one that follows the parent to new ones.
+func flightKeyShape(path string) bool {
+	fset := token.NewFileSet()
+	file, err := parser.ParseFile(fset, path, nil, 0)
+	if err != nil {
+		return false
+	}
+	fn := findFunc(file, "groupLookup")
+	if fn == nil {
+		return false
+	}
+	ok := false
+	ast.Inspect(fn, func(n ast.Node) bool {
+		as, isAs := n.(*ast.AssignStmt)
+		if !isAs || len(as.Lhs) != 1 || exprStr(fset, as.Lhs[0]) != "key" || as.Tok != token.DEFINE {
+			return true
+		}
+		txt := nodeStr(fset, as.Rhs[0])
+		if strings.Contains(txt, "Fingerprint") && strings.Contains(txt, "Zone") && strings.Contains(txt, "cd") && strings.Contains(txt, "Key") {
+			ok = true
+		}
+		return true
+	})
+	return ok
 }
 
 func nodeStr(fset *token.FileSet, n ast.Node) string {
